@@ -26,6 +26,35 @@ ZLIB_ASSUME = [
 ]
 
 PROPS = {
+    'C20': {
+        'tus': [E + 'engine.cpp'],
+        'functions': [P_ + 'normalize_beatgrid', P_ + 'normalize_beatgrid@normal_form_is_fixed_point', P_ + 'normalize_beatgrid@any_start_index'],
+        'level': 'proof',
+        'assumptions': [
+            'double is modelled as the reals: "idempotent up to floating-point rounding" is proved as exact idempotence over the reals; the bracket sc <= last < sc + one beat can be off by an ulp in IEEE arithmetic',
+            'domain of the proof: strictly increasing grid of at most 2^20 markers, beat indices in [-4, 2^20], |sample offsets| <= 2^39, 0 <= sample_count <= 2^39, every segment at least 1024 samples per beat (outside it the int32 beat arithmetic of the code can overflow - not claimed)',
+            'grids with a beat index below -4 are outside the proved domain: see the KNOWN-FINDING exhibited by the variant contract @any_start_index',
+            'idempotence = (every output is in normal form) + (a grid in normal form is returned unchanged); the step from pairwise-adjacent order of the output to the all-pairs order required by the second contract is transitivity (an induction that is not mechanised)',
+            'std::find_if / vector::erase are models: first position satisfying the real (lifted) predicate; erase of a prefix/suffix moves a window over the same arrays',
+            'trusted: the vcgen symbolic executor (/verif/vlib/vcgen.py), its manual quantifier instantiation (only ever weakens hypotheses) and z3',
+        ],
+        'explanation': 'normalize_beatgrid is symbolically executed from the clang AST (all 2^k paths through the trimming and the two arithmetic blocks); the postconditions transcribe the property: first index -4, last marker in [end, end + one beat), interior markers are input markers verbatim, first and last segment keep their samples-per-beat (witnessed by the value the code computed), only invalid_argument escapes, every vector index / iterator range / int32 conversion is safe; idempotence via a second contract on normal-form inputs.',
+    },
+    'C19': {
+        'tus': [E + 'engine.cpp'],
+        'functions': [P_ + 'util::waveform_quantisation_number', P_ + 'util::calculate_high_resolution_waveform_extents',
+                      P_ + 'util::calculate_overview_waveform_extents', P_ + 'calculate_high_resolution_waveform_extents',
+                      P_ + 'calculate_overview_waveform_extents',
+                      'lemma:C19.mono_high_resolution', 'lemma:C19.mono_overview', 'lemma:C19.size_is_ceiling'],
+        'level': 'proof',
+        'assumptions': [
+            'integers are mathematical with a generated range obligation for every UB-capable operation; unsigned arithmetic is reduced mod 2^64 explicitly',
+            'double is modelled as the reals: the sample rate is any real in [0, 2^31]; int -> double is the exact embedding (exact in IEEE-754 below 2^53, so the overview span is exact for sample counts below 2^53 and correctly rounded above)',
+            'domain of the proof: sample_count <= 2^62 and 0 <= sample_rate <= 2^31 (the property\'s own domain)',
+            'trusted: the vcgen symbolic executor in /verif/vlib/vcgen.py (own code) and z3',
+        ],
+        'explanation': 'The three arithmetic functions and the two public wrappers are symbolically executed from the clang AST; each postcondition (cover, minimality, emptiness condition, 1024 entries spanning the count rounded down to the quantisation number) and each generated no-UB side condition is a z3 validity query over the integers/reals for all inputs; monotonicity is a lemma over the contracts.',
+    },
     'C13': {
         'tus': [E + 'schema/schema.cpp', E + 'engine_library_dir_utils.cpp'],
         'functions': [P_ + 'schema::detect_schema', P_ + 'detect_is_database2'],
